@@ -93,7 +93,10 @@ Proof. unfold g_get_gap_lengths, get_gap_lengths. norm. apply firstn1_np_diff. Q
 Lemma pyget_0 l : pyget l 0 = znth 0 l 0.
 Proof. reflexivity. Qed.
 
-Ltac leaf := try reflexivity; try lia; try (f_equal; lia); try congruence.
+(* leaves: identical terms, or terms that differ in integer sub-expressions only ([1 + r] vs [r + 1]) *)
+Ltac leaf := try reflexivity; try lia; try (f_equal; lia); try congruence;
+             try solve [ change g_post_init_len with post_init_lengths; change g_post_init_cum with post_init;
+                         repeat (first [ reflexivity | lia | f_equal ]) ].
 
 Lemma get_seq_index_eq m x : LenOK m -> g_get_seq_index m x = get_seq_index m x.
 Proof.
